@@ -81,6 +81,11 @@ class StandardQTomographyBasedWeightedRelativeEntropy(WeightedRelativeEntropy):
                 extend_weights += [weight] * len(prob_dist)
             self._extend_weights = np.array(extend_weights, dtype=np.float64)
 
+    def set_weights(self, weights: List[float]) -> None:
+        """sets weights and rebuilds the expanded weight vector used by the fast value/gradient."""
+        super().set_weights(weights)
+        self._calc_extend_weights()
+
     def set_prob_dists_q(self, prob_dists_q: List[np.ndarray]) -> None:
         """sets vectors of ``q``, by default None.
 
